@@ -77,11 +77,19 @@ func scenario(bodies []string, life string, bounds []int) *vexp.Scenario {
 			refA, refK, refF := w.Ref("/a"), w.Ref("/k"), w.Ref("/f")
 			shared := w.Ref("/a") // a reference object shared by several threads
 			silent := sys.Ask(refA, req{ID: "silent"}, 2*time.Second)
+			dupWinners := 0
 			run := func(ti int, b string) {
 				switch b {
 				case "spawn":
 					if _, err := w.SpawnRoot(&vsys.Script{Name: fmt.Sprintf("n%d", ti)}); err != nil {
 						x.Logf("spawn: %v", err)
+					}
+				case "spawn-same":
+					// several threads race for the same name: exactly one wins, the others get an error, the winner stays intact
+					if _, err := w.SpawnRoot(&vsys.Script{Name: "dup"}); err != nil {
+						x.Logf("spawn-same: %v", err)
+					} else {
+						dupWinners++
 					}
 				case "kill":
 					sys.Kill(refA, false, "api")
@@ -134,6 +142,14 @@ func scenario(bodies []string, life string, bounds []int) *vexp.Scenario {
 				vrt.Quiesce()
 				if floodSeen != flooded {
 					x.Fail("no-message-lost-under-concurrent-senders", "%d messages were sent to /h by concurrent threads while it was busy, it processed %d of them", flooded, floodSeen)
+				}
+			}
+			if strings.Contains(strings.Join(bodies, "|"), "spawn-same") {
+				if dupWinners != 1 {
+					x.Fail("tree-consistent", "%d concurrent ActorOf calls for the name dup succeeded", dupWinners)
+				}
+				if _, err := sys.FindActor("localhost/dup"); err != nil {
+					x.Fail("tree-consistent", "the actor that won the race for the name dup cannot be found afterwards: %v", err)
 				}
 			}
 			// ---------------- oracle: tree consistency ----------------
@@ -215,6 +231,10 @@ func build(tier string) []*vexp.Scenario {
 	}
 	for _, tr := range [][]string{{"spawn", "kill", "tell"}, {"ask", "kill", "find"}, {"es", "es", "kill"}, {"fut", "fut", "ask"}, {"spawn", "spawn", "spawn"}, {"ref", "tell", "kill"}} {
 		out = append(out, scenario(tr, "dying", wide))
+	}
+	for _, life := range []string{"dying", "failing"} {
+		out = append(out, scenario([]string{"spawn-same", "spawn-same"}, life, narrow))
+		out = append(out, scenario([]string{"spawn-same", "spawn-same", "spawn-same"}, life, wide))
 	}
 	// concurrent senders pushing one mailbox queue across its growth boundary
 	out = append(out, scenario([]string{"flood", "flood"}, "dying", []int{0}))
